@@ -23,6 +23,7 @@ type streamCase struct {
 	FileType int              `json:"file_type"`
 	Stream   *fitmodel.Stream `json:"stream"`
 	Text     string           `json:"text"`
+	Chunk    *gen.Chunking    `json:"chunking,omitempty"` // how the bytes are handed to Decode (nil: whole)
 }
 
 func mkCase(ft fit.FileType, s *fitmodel.Stream) streamCase {
@@ -40,7 +41,13 @@ func checkStream(rec *hx.Recorder, c streamCase, labels map[string]int) (sig, ms
 	data := c.Stream.Bytes()
 	var f *fit.File
 	var err error
-	if p := oracle.Catch(func() { f, err = fit.Decode(bytes.NewReader(data)) }); p != nil {
+	if p := oracle.Catch(func() {
+		if c.Chunk != nil {
+			f, err = fit.Decode(gen.NewReader(data, *c.Chunk))
+		} else {
+			f, err = fit.Decode(bytes.NewReader(data))
+		}
+	}); p != nil {
 		return "", fmt.Sprintf("Decode panicked: %v\nstream: %s", p, c.Text), false
 	}
 	if err != nil {
@@ -194,6 +201,11 @@ func TestC02(t *testing.T) {
 			o := gen.DefaultStreamOpts()
 			s, info := gen.GenStream(d, o)
 			c := mkCase(info.FileType, s)
+			if d.Int(0, 2, "chunked") == 0 {
+				ch := gen.DrawChunking(d)
+				c.Chunk = &ch
+				rec.Class("read through chunking "+ch.Kind, 1)
+			}
 			labels := map[string]int{}
 			rec.Eval("streams", 1)
 			sig, msg, ok := checkStream(rec, c, labels)
@@ -211,6 +223,50 @@ func TestC02(t *testing.T) {
 			}
 			if !ok {
 				fail(sig, msg, c)
+			}
+		})
+
+		// boundary: slide the decoder's 4096-byte buffer boundary across every
+		// byte of a small stream (fillers in front), also with the stream as
+		// the last thing in the data area
+		boundaryCases, boundaryFailed := 0, false
+		hx.RapidCheck(t, rec, "boundary", func(rt *rapid.T, fail func(string, string, any)) {
+			// each case costs ~100 decodes of a 4 KiB file: a bounded number
+			// of cases per run (the rapid check count is shared by all
+			// sub-checks of this binary)
+			if boundaryCases >= hx.Pick(40, 300) && !boundaryFailed {
+				return
+			}
+			boundaryCases++
+			d := gen.D{T: rt}
+			o := gen.DefaultStreamOpts()
+			o.ExtraFileIds = false
+			o.MinRecs, o.MaxRecs = 1, 5
+			o.MaxFields = 4
+			s, info := gen.GenStream(d, o)
+			tail := gen.TailLen(s)
+			if tail > 900 {
+				return
+			}
+			n := int64(0)
+			for j := 0; j <= tail+1; j++ {
+				s2, ok := gen.SlideTo(s, 4096-j)
+				if !ok {
+					continue
+				}
+				c := mkCase(info.FileType, s2)
+				n++
+				if sig, msg, ok := checkStream(rec, c, map[string]int{}); !ok {
+					rec.Eval("boundary", n)
+					c.Text = fmt.Sprintf("(tail slid so that the 4096-byte boundary falls %d bytes into it) %s", j, s.String())
+					boundaryFailed = true // keep shrinking past the case budget
+					fail(sig, msg, c)
+				}
+			}
+			rec.Eval("boundary", n)
+			rec.NonTrivial(hx.FP("b" + s.String()))
+			for k := range info.Labels {
+				rec.Class("boundary:"+k, 1)
 			}
 		})
 
